@@ -15,7 +15,7 @@ from register_crypto_plugin.ecdsa import ecdsa as EE
 LEVEL = "exploration"
 RULE = ("E1: complete small groups - 8 prime-order curves over primes <= 61 (a = 0, a = -3, order above and below p): ('add', curve, i) point i in 4 "
         "projective scalings + infinity against EVERY point in every scaling (all ordered pairs: equal, inverse, infinity, Z-equal, Z=1 shortcuts), "
-        "doubling, negation, equality; ('mul', curve, i) EVERY scalar 0..2n+1 x point i x {table, NAF with order, NAF without order, scaled}; "
+        "doubling, negation, equality; ('mul', curve, i) EVERY scalar 0..2n+1 x point i x {table (Z = 1, 2, p-1 when the table is built), NAF with order, NAF without order, scaled}; "
         "('muladd', curve, i) every pair x scalars {0,1,2,n-1,n,n+1}^2; ('affine', curve, i) the affine Point class likewise. ('inv', p) inverse_mod "
         "for every a mod every prime <= 257; ('sqrt', p) square_root_mod_prime for every residue / non-residue mod every prime <= 307. Standard "
         "curves ('std', curve, scalar class): k*G vs OpenSSL and vs the textbook reference for k in {0,1,2,n-1,n,n+1,2^k,2^k-1,seed up to 2n}, k*P "
@@ -187,7 +187,8 @@ def run_case(ctx, case):
             for k in range(0, 2 * n + 2):
                 exp = cv.mul(k, P)
                 variants = [("table", jac(cf, cv, P, 1, n, True)), ("naf-order", jac(cf, cv, P, 2, n)),
-                            ("naf-noorder", jac(cf, cv, P, 3, None)), ("naf-z1", jac(cf, cv, P, 1, n))]
+                            ("naf-noorder", jac(cf, cv, P, 3, None)), ("naf-z1", jac(cf, cv, P, 1, n)),
+                            ("table-z2", jac(cf, cv, P, 2, n, True)), ("table-zp-1", jac(cf, cv, P, cv.p - 1, n, True))]
                 for vn, A in variants:
                     ops += 1
                     got = aff(A * k)
@@ -210,9 +211,9 @@ def run_case(ctx, case):
             for Q in pts:
                 for k1 in ks:
                     for k2 in ks:
-                        for variant in (0, 1):
-                            A = jac(cf, cv, P, 1 if variant == 0 else 2, n, generator=(variant == 0))
-                            Bq = jac(cf, cv, Q, 3 if variant == 0 else 1, n)
+                        for variant in (0, 1, 2):
+                            A = jac(cf, cv, P, (1, 2, 3)[variant], n, generator=(variant != 1))
+                            Bq = jac(cf, cv, Q, (3, 1, 2)[variant], n, generator=(variant == 2))
                             exp = cv.add(cv.mul(k1, P), cv.mul(k2, Q))
                             ops += 1
                             got = aff(A.mul_add(k1, Bq, k2))
@@ -297,6 +298,15 @@ def run_case(ctx, case):
                 return o.viol("std|kP-affine|%s" % cur.name, "%s: affine %d * P wrong" % (cur.name, k))
         if aff(G.mul_add(k, A, 3)) != cv.add(exp, cv.mul(3, P7)):
             return o.viol("std|mul_add|%s" % cur.name, "%s: mul_add(%d, P, 3) wrong" % (cur.name, k))
+        # table-carrying points whose internal Z is not 1 when the table is built
+        T7 = E.PointJacobi(cf, P7[0] * 9 % cv.p, P7[1] * 27 % cv.p, 3, n, generator=True)
+        if aff(T7 * k) != cv.mul(k, P7):
+            o.cls = "differs"
+            return o.viol("std|kP-table-z3|%s" % cur.name, "%s: %d * P with a lazily built table and Z=3 wrong" % (cur.name, k))
+        T7b = E.PointJacobi(cf, P7[0] * 4 % cv.p, P7[1] * 8 % cv.p, 2, n, generator=True)
+        Gz = E.PointJacobi(cf, cv.g[0] * 25 % cv.p, cv.g[1] * 125 % cv.p, 5, n, generator=True)
+        if aff(Gz.mul_add(k, T7b, 5)) != cv.add(exp, cv.mul(5, P7)):
+            return o.viol("std|mul_add-tables|%s" % cur.name, "%s: mul_add with two table-carrying points (Z != 1) wrong" % cur.name)
         return o
     if kind == "ecdh":
         cur = STD[case[1]]
